@@ -81,3 +81,43 @@ def _str(*a):
 
 
 core._PATCH_REGISTRATIONS[str] = _str
+
+# (5) int(symbolic_str, 16) stays symbolic when every character is an ASCII hex digit (the
+#     stock patch realises for bases above 10).  Everything else: stock behaviour.
+from crosshair.libimpl.builtinslib import SymbolicInt  # noqa: E402
+from crosshair.core import realize  # noqa: E402
+
+_stock_int = core._PATCH_REGISTRATIONS[int]
+_NOARG = object()
+
+
+def _int(val=0, base=_NOARG):
+    hexcase = False
+    with NoTracing():
+        if isinstance(val, AnySymbolicStr) and base is not _NOARG and type(base) is int and base == 16:
+            hexcase = True
+    if hexcase:
+        n = len(val)
+        if 1 <= n <= 8:
+            ret = 0
+            good = True
+            for ch in val:
+                o = ord(ch)
+                if 48 <= o <= 57:
+                    ret = ret * 16 + (o - 48)
+                elif 97 <= o <= 102:
+                    ret = ret * 16 + (o - 87)
+                elif 65 <= o <= 70:
+                    ret = ret * 16 + (o - 55)
+                else:
+                    good = False
+                    break
+            if good:
+                return ret
+        return int(realize(val), 16)
+    if base is _NOARG:
+        return _stock_int(val)
+    return _stock_int(val, base)
+
+
+core._PATCH_REGISTRATIONS[int] = _int
